@@ -4,7 +4,7 @@
    YVGen.ScopeCfg); side conditions are decided here by computation. *)
 From Coq Require Import List Arith Bool String ZArith NArith Lia.
 From YVGen Require Import Consts ScopeCfg.
-From YV Require Import Upvalues Cells UpvaluesProofs ScopeLang ScopeComp ScopeRun ScopeLangProofs ScopeSwap ScopeSim ScopeDefs2 ScopeDefsN ScopeStage.
+From YV Require Import Upvalues Cells UpvaluesProofs ScopeLang ScopeComp ScopeRun ScopeLangProofs ScopeSwap ScopeSim ScopeDefs2 ScopeDefsN ScopeStage ScopeDefs5 ScopeStage5.
 Import ListNotations.
 
 Definition upvalues_max := N.to_nat UPVALUES_MAX.
@@ -207,3 +207,40 @@ Print Assumptions C06_compile_scope_correct_partial.
 Print Assumptions C06_model_is_the_repaired_one.
 Print Assumptions C06_compile_scope_refuted_break_dead_pops.
 Print Assumptions C06_compile_scope_refuted_unwind.
+
+(* ===== stage 5 (ScopeDefs5 … ScopeStage5.v): stage 4 + throw + try/catch ===== *)
+(* the three facts about the current sources that stage 5 needs are the regenerated ones *)
+Theorem C06_side_repaired_stage5 :
+  c_break_pops_first the_cfg = true /\ c_unwind_closes the_cfg = true /\ c_catch_pops the_cfg = false.
+Proof. repeat split; reflexivity. Qed.
+
+(* stage 4 + `throw e` + `try { .. } catch x { .. }`: for EVERY program of the fragment, any fuel: if it compiles and the
+   reference evaluator completes (normally or with an uncaught exception), the compiled code on the machine over
+   Upvalues.v prints the same and ends the same way *)
+Theorem C06_compile_scope_correct_stage5 : forall cf p funs fuel st en c,
+  c_break_pops_first cf = true -> c_unwind_closes cf = true -> c_catch_pops cf = false ->
+  forallb (stmt7 true false true false) p = true -> compile_scope cf p = Some funs ->
+  exec_list fuel p [] true s_empty = (st, en, c) -> (c = CNorm \/ exists v, c = CThrow v) ->
+  exists n, forall k, Gen.run_funs bk_m cf (n + k) funs = eval_cells_fuel fuel p.
+Proof. exact compile_scope_correct_stage5. Qed.
+
+(* ... instantiated with the configuration read off the current sources *)
+Theorem C06_compile_scope_correct_stage5_now : forall p funs fuel st en c,
+  forallb (stmt7 true false true false) p = true -> compile_scope the_cfg p = Some funs ->
+  exec_list fuel p [] true s_empty = (st, en, c) -> (c = CNorm \/ exists v, c = CThrow v) ->
+  exists n, forall k, Gen.run_funs bk_m the_cfg (n + k) funs = eval_cells_fuel fuel p.
+Proof. exact (fun p funs fuel st en c => compile_scope_correct_stage5 the_cfg p funs fuel st en c eq_refl eq_refl eq_refl). Qed.
+
+(* with the shipped unwind_stack (truncate without closing the upvalues above the handler's height) it is false *)
+Theorem C06_compile_scope_stage5_refuted_unwind :
+  let cf := mkCfg 256 256 true false false in
+  exists p funs st en,
+    forallb (stmt7 true false true false) p = true /\ compile_scope cf p = Some funs /\
+    exec_list 30 p [] true s_empty = (st, en, CNorm) /\
+    ~ (exists n, forall k, Gen.run_funs bk_m cf (n + k) funs = eval_cells_fuel 30 p).
+Proof. exact compile_scope_stage5_refuted_unwind. Qed.
+
+Print Assumptions C06_side_repaired_stage5.
+Print Assumptions C06_compile_scope_correct_stage5.
+Print Assumptions C06_compile_scope_correct_stage5_now.
+Print Assumptions C06_compile_scope_stage5_refuted_unwind.
